@@ -125,6 +125,46 @@ example : polyAdd (sumR 2 (fun q => Hal.negMul ([[3, -1]].getD q []) ([[1, 5]].g
     (fun q hq => by have h0 : q = 0 := (by omega); subst h0; rfl)
     (fun q hq => by have h0 : q = 0 := (by omega); subst h0; decide) (by decide)
 
+/-- **`cswap_swaps`.**  `Cswap` computes `res_a ← (res_b − res_a) ⊡ ggsw + res_a` and
+`res_b ← res_b − (res_b − res_a) ⊡ ggsw`.  Let `D = Σ_q d_q ⋆ w_q` be the gadget recomposition of the digits of
+`res_b − res_a`, assumed to be `B − A` (`A`, `B`: the phases of the two inputs at this limb, less the dropped limbs).
+If the GGSW rows have phase `m2 ⋆ w_q + e_q`, then for the bit `m2 = 1` the two output phases are the input phases
+**exchanged** — `(B + N, A − N)` — and for `m2 = 0` they are **unchanged** — `(A + N, B − N)` — with the same explicit
+error sum `N = Σ_q d_q ⋆ e_q` entering with opposite signs, for every pair of inputs and every shape.  This is the
+`CswapContract` that the blind-retrieval theorems of C15 (`Lemmas/BlindSel.lean`) assume, at phase level. -/
+theorem cswap_swaps (n k : Nat) (bit : Bool) (d P w e : Nat → Poly) (R : Nat) (A B : Poly)
+    (hA : A.length = n) (hB : B.length = n)
+    (hw : ∀ q, q < R → (w q).length = n) (he : ∀ q, q < R → (e q).length = n)
+    (hP : ∀ q, q < R → P q = polyAdd (Hal.negMul (if bit then 1 :: zeroP k else zeroP (k + 1)) (w q)) (e q))
+    (hD : sumR n (fun q => Hal.negMul (d q) (w q)) R = polySub B A) :
+    polyAdd (sumR n (fun q => Hal.negMul (d q) (P q)) R) A
+        = polyAdd (if bit then B else A) (sumR n (fun q => Hal.negMul (d q) (e q)) R)
+      ∧ polySub B (sumR n (fun q => Hal.negMul (d q) (P q)) R)
+        = polySub (if bit then A else B) (sumR n (fun q => Hal.negMul (d q) (e q)) R) := by
+  refine ⟨cmux_selects n k bit d P w e R B A hB hA hw he hP hD, ?_⟩
+  rw [ep_identity n _ d P w e R hw he hP, hD]
+  have hlen : (polySub B A).length = n := by simp [polySub, hA, hB]
+  have hN : (sumR n (fun q => Hal.negMul (d q) (e q)) R).length = n :=
+    sumR_length n _ R (fun q hq => by rw [Hal.negMul_length, he q hq])
+  cases bit with
+  | true =>
+    simp only [if_true]
+    rw [negMul_one]
+    exact sub_add_sub_regroup A B _ (by rw [hA, hB]) (by rw [hN, hB])
+  | false =>
+    simp only [Bool.false_eq_true, if_false]
+    rw [negMul_zeroP_left, hlen, ep_polyAdd_zero_left n _ hN]
+
+example : polyAdd (sumR 2 (fun q => Hal.negMul ([[3, -1]].getD q []) ([[1, 5]].getD q [])) 1) [8, 21]
+      = polyAdd [11, 20] (sumR 2 (fun q => Hal.negMul ([[3, -1]].getD q []) ([[0, 5]].getD q [])) 1)
+    ∧ polySub [11, 20] (sumR 2 (fun q => Hal.negMul ([[3, -1]].getD q []) ([[1, 5]].getD q [])) 1)
+      = polySub [8, 21] (sumR 2 (fun q => Hal.negMul ([[3, -1]].getD q []) ([[0, 5]].getD q [])) 1) :=
+  cswap_swaps 2 1 true (fun q => [[3, -1]].getD q []) (fun q => [[1, 5]].getD q []) (fun q => [[1, 0]].getD q [])
+    (fun q => [[0, 5]].getD q []) 1 [8, 21] [11, 20] rfl rfl
+    (fun q hq => by have h0 : q = 0 := (by omega); subst h0; rfl)
+    (fun q hq => by have h0 : q = 0 := (by omega); subst h0; rfl)
+    (fun q hq => by have h0 : q = 0 := (by omega); subst h0; decide) (by decide)
+
 /-! ## Row expansion (GGLWE → GGSW), third clause of the property -/
 
 /-- **Layer B — row expansion.**  Row `row` of the GGLWE is the GLWE `(body, a_1 … a_r)` with
